@@ -719,9 +719,12 @@ class UserTrackingManager:
             return
 
         if event.state == ConnectionState.CLOSED:
-            tasks = self.stop()
-            if tasks:
-                await asyncio.gather(*self.stop(), return_exceptions=True)
+            # The tasks are only cancelled and not awaited: when the connection
+            # got closed by a write error of a tracking request this handler
+            # runs inside a child task of the tracking task it would wait for,
+            # both tasks would wait for each other for ever
+            self.stop()
+            self._tracked_users = {}
 
     def stop(self) -> list[asyncio.Task]:
         tasks = []
